@@ -4,9 +4,9 @@ import json, subprocess, sys
 ALL = ["C%02d" % i for i in range(1, 21)]
 CHECKS = {
  "C06": dict(level="exploration", ref="DESIGN.md §3 C06",
-   technique="passive runtime monitor: every frame emitted in TCP, option and multi-interface sweeps is decoded by an independent RFC codec (lengths, checksums, option grammar, IP identification) and its addressing compared with the socket / answered packet / an independent first-match route lookup",
-   text="About 150 000 frames per quick run (millions in thorough) of TCP (IPv4/IPv6, all option combinations incl. 1-4 SACK blocks, retransmissions), UDP (boundary lengths), ICMP echo replies on stacks with 1-3 interfaces and PRNG-ordered overlapping routes are each checked by h/rfc; source address/interface are compared with a reference route lookup, ports and addresses with the socket or the packet being answered.",
-   note="Trusted: h/rfc (independent of /repo); only frames the workloads elicit are judged. The fd-based Ethernet link is exercised by C07."),
+   technique="passive runtime monitor: every frame emitted in TCP, option and multi-interface sweeps is decoded by an independent RFC codec (lengths, checksums, option grammar, IP identification) and its addressing compared with the socket / answered packet / an independent first-match route lookup; on the fd-based Ethernet link (socketpair, real time) the harness plays the neighbours and judges source/destination MAC, EtherType and frame length",
+   text="About 150 000 frames per quick run (millions in thorough) of TCP (IPv4/IPv6, all option combinations incl. 1-4 SACK blocks, retransmissions), UDP (boundary lengths), ICMP echo replies on stacks with 1-3 interfaces and PRNG-ordered overlapping routes are each checked by h/rfc; source address/interface are compared with a reference route lookup, ports and addresses with the socket or the packet being answered. UDP datagrams crafted for a computed checksum of zero, mid-segment ACKs followed by retransmission of the remainder. fd-based sweep: 480 scenarios (quick) with an on-link host and a gateway per family, PRNG-ordered routes, MAC changes, passive and active opens, echo, boundary-length UDP.",
+   note="Trusted: h/rfc (independent of /repo); only frames the workloads elicit are judged."),
  "C07": dict(level="exploration", ref="DESIGN.md §3 C07",
    technique="child-process isolation with on-disk witness: structure-aware mutated frames, exhaustive small-scope fragment sequences and noise are injected into a real stack; process death (panic site) and logical liveness probes in virtual time are the oracle; fd-based link over a socketpair; concurrent barrage under the race detector",
    text="Each batch of frames is written to disk and each frame index logged before injection, so a crash names its input. After every batch the stack must answer one echo request, accept a new TCP connection with its data readable, and deliver a UDP datagram (virtual time, fresh ports, queues drained first, 1.5 virtual seconds after the batch so that timers armed by hostile input have fired). Two established connections with unacknowledged data are held during each batch: one receives in-window hostile segments, a quiet one is addressed only by ICMP errors (incl. fragmentation-needed with boundary next-hop MTUs). The fd-based link is driven with runt and hostile Ethernet frames; its close callback and an echo probe are observed.",
@@ -21,7 +21,7 @@ CHECKS = {
    note="Trusted: payload code and h/rfc. UDP delivery is synchronous, so no virtual time is needed."),
  "C12": dict(level="exploration", ref="DESIGN.md §3 C12",
    technique="scripted neighbour against a real stack on a resolution-required harness link in virtual time: ARP/NDP replies decoded by the independent codec, a reference neighbour table, and the exact virtual-time schedule of resolution requests",
-   text="ARP requests/replies (own, foreign, malformed), learning and non-learning, expiry after virtual minutes, overwrite, cache overflow and ring wrap-around during a wait; UDP writes and TCP connects toward unresolved next hops with the neighbour answering the 1st/2nd/3rd request or never: no data before resolution, requests 1 s apart, at most three, then proceed to the learned MAC or fail with the no-link-address error; IPv6 NS/NA.",
+   text="ARP requests/replies (own, foreign, malformed), learning and non-learning, expiry after virtual minutes, overwrite, cache overflow and ring wrap-around during a wait; UDP writes and TCP connects toward unresolved next hops with the neighbour answering the 1st/2nd/3rd request or never: no data before resolution, requests 1 s apart, at most three, then proceed to the learned MAC or fail with the no-link-address error; IPv6 NS/NA; an own address is removed and re-assigned while requests arrive (a removed address must go unanswered).",
    note="Trusted: virtual time (synctest); reference table in h/c12."),
  "C13": dict(level="exploration", ref="DESIGN.md §3 C13",
    technique="request/reply matching at the tap in virtual time: unique (id, seq, payload) echo requests built by the independent codec, replies decoded and checksum-verified by it",
@@ -39,15 +39,15 @@ CHECKS = {
  "C02": dict(level="fault_enumeration", ref="DESIGN.md §3 C02",
    technique="fault enumeration in virtual time: packet identities of each base exchange are enumerated from a fault-free run, then every class is dropped once/twice, pairs are dropped, ACKs/data are held back (reordering), plus random-fault scenarios; completion-or-explicit-error by a virtual deadline is the oracle",
    text="For ~34 base exchanges (sizes, close orders, half-close, closed receive window in several timings) every packet class is dropped (first/middle/last/PRNG identities; all in thorough), pairs are dropped, and packets are delayed; each run must complete with end-of-stream after exactly the written bytes and correct closed-state observables, or fail with an explicit error, within 30 virtual minutes; a quiet connection is a stall.",
-   note="Trusted: virtual time (synctest), identity keys (direction, flags, relative seq, length / ack, window). 'Eventually' restated as 'by virtual T'. Known finding: no persist timer."),
+   note="Trusted: virtual time (synctest), identity keys (direction, flags, relative seq, length / ack, window). 'Eventually' restated as 'by virtual T'. A half-open outcome (active side connected, passive side never accepted) is judged from handshake bookkeeping on the wire; more than two lost handshake packets is outside the fault bound and only counted. Known findings: no persist timer (window update lost, or overtaken by an older zero-window ACK)."),
  "C03": dict(level="exploration", ref="DESIGN.md §3 C03",
    technique="scripted raw peer (independent RFC codec) against one real stack in virtual time with quiescence after every injected segment; Accept/Connect results and emitted resets judged against the RFC 793 reset rule",
    text="Thousands of handshake scripts (passive and active, normal / cookie / genuine-pressure mode, PRNG option sets, wrap-adjacent ISS, wrong acknowledgements at +-1, +-2, +-2^16, 2^31, 0, 2^32-1 and random, duplicate/other SYN, RST in and out of window, early data, cross-tuple ACKs) and strays with every flag combination; a connection may appear only after the exact acknowledgement, bad acknowledgements draw exactly one reset with that sequence number, strays draw exactly one RFC-shaped reset, resets are never answered.",
    note="Trusted: h/rfc for building/decoding segments, quiescence (synctest.Wait) for attributing replies. Known finding: cookie validation accepts near-miss ACKs."),
  "C04": dict(level="exploration", ref="DESIGN.md §3 C04",
    technique="online monitor over every segment a real stack emits to a scripted raw peer in virtual time: unwrapped right-edge/MSS/MTU bounds on the send side, monotone advertised edge, acceptance and deliverability on the receive side",
-   text="The peer script mixes application writes, cumulative ACKs with hostile windows (0, 1, MSS-1, scaled, shrinking), re-sent stale ACKs, pauses, in-window / out-of-order / beyond-window data, reader stop/resume and receive-buffer changes; every emitted data segment must end at or before the largest right edge the peer has sent so far, fit the peer MSS and the MTU and carry the written bytes; the advertised edge must not retreat; in-window data must be acknowledged and readable; beyond-window bytes must never be readable; a closed window must reopen.",
-   note="Trusted: quiescence after every step makes 'sent so far' = 'processed so far'. Known finding: advertised edge retreats by < one scale unit (window field truncation)."),
+   text="The peer script mixes application writes, cumulative ACKs with hostile windows (0, 1, MSS-1, scaled, shrinking), re-sent stale ACKs, pauses, in-window / out-of-order / beyond-window data, reader stop/resume and receive-buffer changes; one passive scenario in five is accepted through a SYN cookie with peer MSS values on, between and below the cookie table entries; every emitted data segment must end at or before the largest right edge the peer has sent so far, fit the peer MSS and the MTU and carry the written bytes; the advertised edge must not retreat; in-window data must be acknowledged and readable; beyond-window bytes must never be readable; a closed window must reopen.",
+   note="Trusted: quiescence after every step makes 'sent so far' = 'processed so far'. Known findings: advertised edge retreats by < one scale unit (window field truncation); in cookie mode a peer MSS below 536 is rounded up to 536."),
  "C05": dict(level="exploration", ref="DESIGN.md §3 C05",
    technique="totally ordered virtual-time log of a real stack's emissions against a scripted raw peer; timing clauses decided on logical instants (no wall clock), window clauses by counting at every emission",
    text="'silent' scripts check every timeout retransmission (right segment, >= 200 ms after its previous transmission, intervals at least doubling, one segment per expiry); 'fastrexmit' scripts lose each position of a flight and require the retransmission at the instant the third duplicate ACK is delivered; 'cwnd' scripts count distinct segments in flight against 10 + acknowledged + duplicate ACKs (Reno) and 10 before the first ACK.",
